@@ -154,7 +154,21 @@ func verify(c *Ctx, sel func(ct *Contract) bool, want func(name string, tags []s
 	}
 	rr.GenS = time.Since(t0).Seconds()
 	t1 := time.Now()
+	axioms := axiomAsserts(c)
 	prelude := c.Prelude()
+	withAxioms := func(q string) string {
+		var b strings.Builder
+		for _, a := range axioms {
+			for _, sym := range a.syms {
+				if strings.Contains(q, sym) {
+					b.WriteString(a.text)
+					rr.Assumed["axiom:"+a.name] = a.src
+					break
+				}
+			}
+		}
+		return b.String()
+	}
 	// group by name
 	groups := map[string][]*Obligation{}
 	var names []string
@@ -195,7 +209,11 @@ func verify(c *Ctx, sel func(ct *Contract) bool, want func(name string, tags []s
 					if already {
 						continue
 					}
-					q := prelude + strings.Join(ob.Cmds, "\n") + "\n"
+					q := strings.Join(ob.Cmds, "\n") + "\n"
+					mu.Lock()
+					ax := withAxioms(q)
+					mu.Unlock()
+					q = prelude + ax + q
 					sr := solver.SolveCover(q)
 					mu.Lock()
 					if sr.Status != "unsat" {
@@ -211,7 +229,11 @@ func verify(c *Ctx, sel func(ct *Contract) bool, want func(name string, tags []s
 					mu.Unlock()
 					continue
 				}
-				q := prelude + strings.Join(ob.Cmds, "\n") + "\n(assert (not " + ob.Goal.S + "))\n"
+				q := strings.Join(ob.Cmds, "\n") + "\n(assert (not " + ob.Goal.S + "))\n"
+				mu.Lock()
+				ax := withAxioms(q)
+				mu.Unlock()
+				q = prelude + ax + q
 				sr := solver.Solve(ob.Name, q, true)
 				mu.Lock()
 				r.Seconds += sr.Seconds
@@ -278,6 +300,40 @@ func (s *Solver) SolveCover(q string) SolveResult {
 		}
 	}
 	return res
+}
+
+type axiomText struct {
+	name, src, text string
+	syms            []string
+}
+
+var reUF = regexp.MustCompile(`uf_[A-Za-z0-9_]+`)
+
+// axiomAsserts renders the assumed lemmas once; each is attached to the queries that mention one of
+// the uninterpreted functions it talks about.
+func axiomAsserts(c *Ctx) []axiomText {
+	var out []axiomText
+	for _, ax := range c.Specs.Axioms {
+		if ax.IsLemma {
+			continue
+		}
+		ob := lemmaObligation(c, ax)
+		if ob == nil || ob.Goal.S == "false" {
+			fmt.Fprintf(os.Stderr, "axiom %s could not be evaluated: %s\n", ax.Name, ob.Src)
+			os.Exit(2)
+		}
+		syms := map[string]bool{}
+		for _, m := range reUF.FindAllString(ob.Goal.S, -1) {
+			syms[m] = true
+		}
+		a := axiomText{name: ax.Name, src: ax.Src, text: "(assert " + ob.Goal.S + ")\n"}
+		for s := range syms {
+			a.syms = append(a.syms, s)
+		}
+		sort.Strings(a.syms)
+		out = append(out, a)
+	}
+	return out
 }
 
 func lemmaObligation(c *Ctx, ax *Axiom) (ob *Obligation) {
